@@ -162,9 +162,12 @@ CHECKS = {
              "round-trip every field, eigenvalue list and (n,k) eigenvector block incl. k=1, n=1; write_vfunc/read_vfunc round-trip. Numbers "
              "are decimal tokens (str/float round trip is a model parameter). Readers and writers are compared with the implementation "
              "byte-for-byte (written files) and value-for-value (parsed meshes, errors mapped to an enum) on generated meshes, dtypes, "
-             "field subsets, every line-prefix truncation; FreeSurfer binary files are compared as an implementation round trip only.",
+             "field subsets, every line-prefix truncation.  FreeSurfer binary surfaces: byte-level model of the layout (nibabel's writer as format "
+             "definition) and of LaPy's bundled reader; theorems fs_roundtrip (read(write s) = s for every well-formed surface incl. footer), "
+             "fs_bad_magic, fs_truncated_mesh (every cut inside header / coordinate / face block is rejected with the stated error), "
+             "fs_truncated_footer (the mesh part never differs); compared byte-for-byte and on every byte-prefix truncation.",
         ref="DESIGN.md 6/C14",
-        note=NOTE + "format model hand-written, tied by exact differential comparison; FreeSurfer binary layout, float32 rounding of np.fromfile and OS errors not modelled.",
+        note=NOTE + "format models hand-written, tied by exact differential comparison; float32 rounding (astype), number parsing inside the FreeSurfer footer, non-ASCII text and OS errors not modelled.",
         technique="Lean 4 proof (token/line-level parser-printer round trips by induction over rows and fuel) tied by exact differential driver"),
     "C15": dict(
         text="Theorems for every mesh and every (multi-column, rectangular) function: map_tfunc_to_vfunc conserves column totals, the weighted "
